@@ -226,7 +226,7 @@ def seq_oracle(case_text, real_lines):
     disk_top = 0
     for l in lines:
         t = l.split()
-        if t[0] in ("cfg", "plant", "mkdir", "fault", "setsettings"):
+        if t[0] in ("cfg", "plant", "mkdir", "fault", "setsettings", "rmblob"):
             continue
         if t[0] == "obs":
             if obs_i >= len(obs_blocks):
@@ -262,6 +262,10 @@ def seq_oracle(case_text, real_lines):
                     fails.append(("cas_exact", f"obs {obs_i}: cas files {casf} expected {spec.cas_files()}"))
                 if stag:
                     fails.append(("staging_empty", f"obs {obs_i}: staging not empty: {stag}"))
+                # C06: every blob file (canonical path) holds the bytes its name says (re-hashed by the harness)
+                for x in blk:
+                    if x.startswith("F cas/") and x.endswith("hash=BAD") and len(x.split()[1].split("/")) == 4 and not any(l.startswith("plant ") for l in lines):
+                        fails.append(("cas_content", f"obs {obs_i}: CAS file whose bytes do not hash to its name: {x[:160]}"))
                 # C20 with no operation in flight: the files decoded by the harness's independent reader
                 # are well-formed, snapshot + log above the snapshot's version equal the acknowledged
                 # history, and the highest version on disk never goes down (versions are not reused)
@@ -344,7 +348,7 @@ def seq_oracle(case_text, real_lines):
 
 def op_lines(case_text):
     return [l for l in case_text.splitlines()
-            if l and not l.startswith(("case ", "end", "cfg ", "obs", "plant ", "mkdir ", "fault ", "setsettings "))]
+            if l and not l.startswith(("case ", "end", "cfg ", "obs", "plant ", "mkdir ", "fault ", "setsettings ", "rmblob "))]
 
 
 def split_crash_blocks(lines):
@@ -1088,7 +1092,7 @@ def orphan_oracle(case_text, real_lines):
     after_cleanup = False
     for l in lines:
         t = l.split()
-        if t[0] in ("cfg", "plant", "mkdir", "fault"):
+        if t[0] in ("cfg", "plant", "mkdir", "fault", "rmblob"):
             continue
         if t[0] == "obs":
             blk = blocks[bi] if bi < len(blocks) else []
